@@ -64,3 +64,15 @@ Example C01_example :
   (let '(a, s) := fit2_avsc 0 10 ex_rows in a == 2 /\ s == -(3#2) /\ S ex_rows a s == 0) /\
   (let '(a, s) := fit2_avsc 0 (3#2) ex_rows in a == 3#2 /\ s == -(11#8) /\ S ex_rows a s == 25#2).
 Proof. vm_compute. repeat split; reflexivity || (intro; discriminate). Qed.
+
+(* --- the regression as it is written since F46 (LinregOrtho): the orthogonalised solve is the same solution as Cramer's rule on
+   the normal equations, so the optimality theorem above is a statement about the code as it stands; the modified first pattern
+   is orthogonal to the second, and it carries the determinant *)
+From SedV Require Import LinregOrtho.
+Theorem C01_regression_as_written : forall rows, ~ m22 rows == 0 -> ~ det rows == 0 ->
+  fst (linreg_ortho_m rows) == fst (linreg_m rows) /\ snd (linreg_ortho_m rows) == snd (linreg_m rows).
+Proof. exact linreg_ortho_eq. Qed.
+Theorem C01_orthogonal : forall rows, ~ m22 rows == 0 -> qsum (fun r => ortho (beta rows) r * r_s r * w r) rows == 0.
+Proof. exact ortho_is_orthogonal. Qed.
+Theorem C01_s11 : forall rows, ~ m22 rows == 0 -> s11 rows == det rows / m22 rows.
+Proof. exact s11_det. Qed.
